@@ -105,6 +105,10 @@ ROUND4 = {
 }
 
 # additions after the fifth round of seeded changes
+ROUND5B = {
+ "C02": " Dial-in replays (hook 10 publishes the listener's port): for the one-seeder scenarios an honest seeder dials the real session over loopback TCP — the accept path (listener, spawn_peer_listener, accepted socket) that the connect seam never reaches: nothing may arrive before its handshake, the client's first message is its handshake, the download completes with identical files.",
+ "C08": " Four exchanges with the real accept path over loopback TCP: a dial-in peer stays silent / sends a handshake for another torrent / a good handshake / a Bitfield before any handshake.",
+}
 ROUND5 = {
  "C02": " Further state invariant: a peer that unchokes us and has announced a piece nobody is fetching has a request outstanding (an idle connection is otherwise masked by the keep-alive limit plus reconnect).",
  "C03": " Plus realistic piece sizes (16384; thorough 8192, 8193, 20000, 65536): total 2p+5, files = the segments between every choice of <= 2 (3) cut points from offsets around the piece boundaries, the 8 KiB mark and interior points.",
@@ -125,7 +129,7 @@ def main():
     checks = []
     for pid in sorted(CHECKS):
         level, technique, engine, text, note, ref = CHECKS[pid]
-        text = text + ROUND3.get(pid, "") + ROUND4.get(pid, "") + ROUND5.get(pid, "")
+        text = text + ROUND3.get(pid, "") + ROUND4.get(pid, "") + ROUND5.get(pid, "") + ROUND5B.get(pid, "")
         checks.append({
             "property_id": pid,
             "quick_cmd": "./check %s --tier quick" % pid,
